@@ -659,3 +659,58 @@ pub fn generate_run_gc(rng: &mut Rng, n: usize, _tier: &str) -> Vec<String> {
     }
     out
 }
+
+/// RUN stream of bare path programs: path atoms of every bit length 0..40 (boundaries 7/8, 15/16, 23/24,
+/// 31/32 emphasised), canonical and with redundant leading zero bytes, against environments that are
+/// deep enough for the whole walk (built along the path) or one level too shallow
+pub fn generate_paths(rng: &mut Rng, n: usize, _tier: &str) -> Vec<String> {
+    let mut out = Vec::new();
+    let mut id = 0usize;
+    let mut cases: Vec<(u64, usize)> = vec![]; // (value, leading zero bytes)
+    for bits in 0..=40u32 {
+        for _ in 0..3 {
+            let v = if bits == 0 { 0 } else { (1u64 << (bits - 1)) | (rng.next() & ((1u64 << (bits - 1)) - 1)) };
+            cases.push((v, 0));
+        }
+        if bits > 0 {
+            cases.push(((1u64 << bits) - 1, 0));
+            cases.push((1u64 << (bits - 1), 0));
+        }
+    }
+    for _ in 0..n {
+        let bits = *rng.pick(&[6u32, 7, 8, 9, 14, 15, 16, 17, 22, 23, 24, 25, 26, 27, 30, 31, 32, 33, 3, 12, 20]);
+        let v = (1u64 << (bits - 1)) | (rng.next() & ((1u64 << (bits - 1)) - 1));
+        cases.push((v, if rng.chance(1, 4) { rng.below(3) as usize + 1 } else { 0 }));
+    }
+    for (v, zeros) in cases {
+        // path atom: minimal positive encoding (a leading 0 when the top bit is set) + extra zeros
+        let T::Atom(mut pb) = int(v as i128) else { unreachable!() };
+        for _ in 0..zeros {
+            pb.insert(0, 0);
+        }
+        // environment along the path: bits from the least significant one, the top set bit is the sentinel
+        let nbits = 64 - v.leading_zeros() as usize;
+        let steps = nbits.saturating_sub(1);
+        let shallow = rng.chance(1, 8) && steps > 0;
+        let depth = if shallow { steps - 1 } else { steps };
+        let mut env = T::Atom(vec![0x5a]);
+        for i in (0..depth).rev() {
+            let bit = (v >> i) & 1 == 1;
+            let other = T::Atom(vec![i as u8 | 0x80]);
+            env = if bit { T::pair(other, env) } else { T::pair(env, other) };
+        }
+        let flags = if rng.chance(1, 3) { random_flags(rng) } else { 0 };
+        // budgets around the real cost
+        let (r, _) = run_with("chia", flags, 0, None, &T::Atom(pb.clone()), &env, "");
+        let cost: Option<u64> = if r.starts_with("ok") { r.split(' ').nth(1).and_then(|c| c.parse().ok()) } else { None };
+        let budgets: Vec<u64> = match cost {
+            Some(c) => vec![0, c, c.saturating_sub(1), c.saturating_sub(4)],
+            None => vec![0],
+        };
+        for b in budgets {
+            out.push(format!("RUN p{} chia {:x} {} - {} {}", id, flags, b, crate::util::hex_or_dash(&trees::encode(&T::Atom(pb.clone()))), trees::to_hex(&env)));
+            id += 1;
+        }
+    }
+    out
+}
